@@ -59,7 +59,8 @@ class Tales(Statements):
 
     def strategy(self, tier):
         return tstrat.templates(depth=2 if tier == "quick" else 3,
-                                tales=True, max_elems=8)
+                                tales=True, max_elems=8, dict_attrs=True,
+                                dict_rec=True)
 
     def _stats(self, case):
         from vlib import exprs
